@@ -409,6 +409,19 @@ pub fn driver(thorough: bool) -> Attack {
     Attack { handshake_records: if thorough { vec![0, 1, 2, 3, 4, 5] } else { vec![0, 1, 2, 3, 5] }, handshake_sigs: if thorough { vec![0, 1, 2, 3] } else { vec![0, 1, 2] }, replays: true, ways: true, msgs: true }
 }
 
+pub fn regression_holds(payload: &serde_json::Value, prop: &str) -> bool {
+    let name = payload["workload"].as_str().unwrap_or("");
+    let hist = crate::hsim::parse_history(payload["history"].as_str().unwrap_or("[]"));
+    let cfgs = configs(true);
+    let cfg = match cfgs.iter().find(|(n, _)| n == name) {
+        Some((_, c)) => c.clone(),
+        None => return true,
+    };
+    let monitors = Monitors { c03: prop == "C03", c04: false, c13: prop == "C13", c15: false, c19: false };
+    let d = driver(true);
+    rt::run(run_history_with(&cfg, monitors, &hist, true, &d)).violation.is_none()
+}
+
 pub fn replay(payload: &serde_json::Value, prop: &str) {
     let name = payload["workload"].as_str().unwrap_or("");
     let hist = crate::hsim::parse_history(payload["history"].as_str().unwrap_or("[]"));
